@@ -68,6 +68,44 @@ class Program:
                 self.modules[fn[:-3]] = (ast.parse(src, filename=path), path, src)
                 self.sha[f"{package}/{fn}"] = hashlib.sha256(src.encode()).hexdigest()
 
+    def dead_store_ifs(self):
+        """`if <compare of names/attributes>: self.a = <name>; ...` whose assigned attributes are read nowhere in
+        the package except in the tests of such statements: removing them cannot change any observable value
+        (dead-store elimination; e.g. ScalarFunction._lowest_x/_lowest_f).  Returns the set of id(node)."""
+        if getattr(self, "_dead_ifs", None) is not None:
+            return self._dead_ifs
+
+        def simple(e):
+            return isinstance(e, (ast.Name, ast.Constant)) or (isinstance(e, ast.Attribute) and simple(e.value))
+        cands = []
+        for name, (tree, _, _) in self.modules.items():
+            for n in ast.walk(tree):
+                if isinstance(n, ast.If) and not n.orelse and isinstance(n.test, ast.Compare) \
+                        and simple(n.test.left) and all(simple(c) for c in n.test.comparators) \
+                        and all(isinstance(st, ast.Assign) and len(st.targets) == 1
+                                and isinstance(st.targets[0], ast.Attribute)
+                                and isinstance(st.targets[0].value, ast.Name) and st.targets[0].value.id == "self"
+                                and simple(st.value) for st in n.body):
+                    cands.append(n)
+        S = {st.targets[0].attr for n in cands for st in n.body}
+        changed = True
+        while changed:
+            changed = False
+            good = [n for n in cands if {st.targets[0].attr for st in n.body} <= S]
+            in_tests = set()
+            for n in good:
+                for x in ast.walk(n.test):
+                    in_tests.add(id(x))
+            for name, (tree, _, _) in self.modules.items():
+                for x in ast.walk(tree):
+                    if isinstance(x, ast.Attribute) and isinstance(x.ctx, ast.Load) and x.attr in S \
+                            and id(x) not in in_tests:
+                        S.discard(x.attr)
+                        changed = True
+        self._dead_ifs = {id(n) for n in cands if {st.targets[0].attr for st in n.body} <= S and S}
+        self.dead_attrs = S
+        return self._dead_ifs
+
     def source_segment(self, modname, node):
         return ast.get_source_segment(self.modules[modname][2], node)
 
@@ -476,6 +514,8 @@ class Interp:
             return f.call(self, args, kw)
         if self.dom is not None and any(is_model(a) for a in list(args) + list(kw.values())):
             return self.dom.call_native_with_models(f, args, kw, site)
+        if self.dom is not None and not callable(f):
+            raise PyExc(self.dom.make_exc("TypeError", (f"'{type(f).__name__}' object is not callable",)))
         return f(*args, **kw)
 
     def instantiate(self, cls, args, kw, site=None):
@@ -671,6 +711,8 @@ class Interp:
     def s_If(self, n, env):
         if self.dom is not None and self.dom.skip_logging and self.is_logging_only(n):
             self.skipped_log_ifs += 1
+            return
+        if self.dom is not None and self.dom.skip_dead_stores and id(n) in self.program.dead_store_ifs():
             return
         if self.truth(self.eval(n.test, env)):
             self.exec_block(n.body, env)
